@@ -360,13 +360,17 @@ func (r *Run) finish() int {
 	if len(r.samples) == 0 {
 		cov["samples"] = []any{"(no case executed)"}
 	}
+	assumptions := r.check.Assumptions
+	if assumptions == nil {
+		assumptions = []string{}
+	}
 	ev := map[string]any{
 		"property_id": r.ID,
 		"tier":        r.Tier,
 		"seed":        r.Seed,
 		"level":       "model_checking",
 		"coverage":    cov,
-		"assumptions": r.check.Assumptions,
+		"assumptions": assumptions,
 		"wall_s":      time.Since(r.start).Seconds(),
 		"violations":  violations,
 	}
